@@ -84,8 +84,50 @@ func GenStaged(r *hx.Rng, database *db.DB) [][]string {
 	}
 	set := func(k []byte) { ops = append(ops, []string{"set", Hex(k), Hex(r.Bytes(r.Intn(4)))}) }
 	del := func(k []byte) { ops = append(ops, []string{"del", Hex(k)}) }
+	get := func(k []byte) { ops = append(ops, []string{"get", Hex(k)}) }
 	n := r.Intn(7)
-	switch existing := database.Iterate(StatePrefix, -1, false); {
+	existing0 := database.Iterate(StatePrefix, -1, false)
+	if r.Intn(3) == 0 {
+		// a failed transaction: touch a key (preferably a stored one with an EMPTY value), snapshot, write, restore the
+		// snapshot, then overwrite or delete the key in the same block
+		k := full()
+		if len(existing0) > 0 && r.Intn(4) != 0 {
+			k = existing0[r.Intn(len(existing0))].Key()
+			for _, kv := range existing0 {
+				if len(kv.Value()) == 0 && r.Intn(3) != 0 {
+					k = kv.Key()
+					break
+				}
+			}
+		}
+		switch r.Intn(3) {
+		case 0:
+			get(k)
+		case 1:
+			set(k)
+		}
+		ops = append(ops, []string{"snap"})
+		for i, m := 0, r.Intn(3); i < m; i++ {
+			if r.Bool() {
+				set(k)
+			} else {
+				set(full())
+			}
+		}
+		if r.Intn(4) == 0 {
+			del(k)
+		}
+		ops = append(ops, []string{"restore", "0"})
+		switch r.Intn(4) {
+		case 0:
+			del(k)
+		case 1:
+		default:
+			set(k)
+		}
+		return ops
+	}
+	switch existing := existing0; {
 	case n >= 3 && r.Intn(4) == 0: // create, overwrite, delete in the same block
 		k := full()
 		set(k)
